@@ -173,9 +173,12 @@ def build(env, kind, a, b=None, scls='gen'):
     if kind == 'lv':
         if util.is_field(ran):
             # v * functional: y in a space whose field is the range -> FunctionalLeftVectorMult: (y * f)(x) = y * f(x)
-            y = env.rv(env.sp2)
+            # ... the vector from another space, or from the functional's own domain (then y * f maps the space into itself
+            # and can be applied in place to its own input)
+            ysp = env.sp2 if (rng.random() < 0.5 or util.is_field(dom)) else dom
+            y = env.rv(ysp)
             ya = np.asarray(y).copy()
-            return (y * op, lambda x: ya * ref(x), lin, '(y * %s)' % txt, dom, env.sp2)
+            return (y * op, lambda x: ya * ref(x), lin, '(y * %s)' % txt, dom, ysp)
         v = env.rv(ran)
         va = arr(ran, v)
         return (v * op, lambda x: va * ref(x), lin, '(v * %s)' % txt, dom, ran)
